@@ -657,3 +657,217 @@ Proof.
         symmetry. apply IH. intros Hin. apply H. right. assumption.
       * split; [|reflexivity]. intros _ [H|H]; [congruence|]. destruct IH as [IH _]. apply (IH eq_refl H).
 Qed.
+
+(* ================= ClientPollResponse ================= *)
+Lemma decode_client_response_eq : forall v,
+  decode_client_response v =
+  if typed_okb client_resp_schema v && negb (beq (fstr v "error") [] && beq (fstr v "answer") [])
+  then Ok (fstr v "answer", fstr v "error") else Err.
+Proof.
+  intros v. unfold decode_client_response, fstr.
+  rewrite unmarshal_eq by apply nodup_client_resp.
+  destruct (typed_okb client_resp_schema v); [|reflexivity].
+  cbv [map client_resp_schema fst snd fieldval]. cbn [andb].
+  destruct (beq (last_str (hits (bs "error") (entries v)) []) [] && beq (last_str (hits (bs "answer") (entries v)) []) []); reflexivity.
+Qed.
+
+Theorem reject_iff_client_response : forall v,
+  decode_client_response v = Err <->
+  ~ well_typed client_resp_schema v \/ (fstr v "answer" = [] /\ fstr v "error" = []).
+Proof.
+  intros v. rewrite decode_client_response_eq, if_err.
+  rewrite andb_false_iff, negb_false_iff, andb_true_iff, !beq_eq, <- typed_okb_iff, not_true_iff_false. tauto.
+Qed.
+
+Theorem accept_client_response : forall v r, decode_client_response v = Ok r -> r = (fstr v "answer", fstr v "error").
+Proof.
+  intros v r. rewrite decode_client_response_eq.
+  destruct (typed_okb client_resp_schema v && negb (beq (fstr v "error") [] && beq (fstr v "answer") [])); congruence.
+Qed.
+
+(* ================= byte level: the library parser as a Section variable ================= *)
+Section Bytes.
+  Variable parse : bytes -> option json.      (* encoding/json: None = not one valid JSON text *)
+
+  Theorem reject_iff_bytes : forall {A} (d : json -> result A) data,
+    opt_decode d (parse data) = Err <-> parse data = None \/ exists v, parse data = Some v /\ d v = Err.
+  Proof.
+    intros A d data. unfold opt_decode. destruct (parse data) as [v|].
+    - split; [intros H; right; exists v; split; [reflexivity|assumption]|].
+      intros [H|(v' & H & E)]; [discriminate|]. injection H as <-. assumption.
+    - split; [left|]; reflexivity.
+  Qed.
+
+  Theorem reject_iff_client_poll : forall data,
+    decode_client_poll parse data = Err <->
+    ~ In 10 data
+    \/ exists ver body, split_nl data = Some (ver, body) /\
+         (ver <> CLIENT_VERSION \/ parse body = None \/ exists v, parse body = Some v /\ decode_client_poll_body v = Err).
+  Proof.
+    intros data. unfold decode_client_poll. destruct (split_nl data) as [[ver body]|] eqn:S.
+    - destruct (beq ver CLIENT_VERSION) eqn:E.
+      + apply beq_eq in E. rewrite reject_iff_bytes. split.
+        * intros H. right. exists ver, body. split; [reflexivity|]. right. assumption.
+        * intros [H|(ver' & body' & H & R)].
+          -- apply split_nl_none in H. congruence.
+          -- injection H as <- <-. destruct R as [R|R]; [contradiction|assumption].
+      + apply beq_neq in E. split; [|reflexivity]. intros _. right. exists ver, body. split; [reflexivity|]. left. assumption.
+    - split; [|reflexivity]. intros _. left. apply split_nl_none. assumption.
+  Qed.
+
+  Lemma client_poll_accept : forall data r, decode_client_poll parse data = Ok r ->
+    exists body v, data = CLIENT_VERSION ++ 10 :: body /\ parse body = Some v /\ decode_client_poll_body v = Ok r.
+  Proof.
+    intros data r. unfold decode_client_poll. destruct (split_nl data) as [[ver body]|] eqn:S; [|discriminate].
+    destruct (beq ver CLIENT_VERSION) eqn:E; [|discriminate]. apply beq_eq in E. subst ver.
+    unfold opt_decode. destruct (parse body) as [v|] eqn:P; [|discriminate]. intros H.
+    exists body, v. split; [apply split_nl_some in S; tauto | split; assumption].
+  Qed.
+End Bytes.
+
+(* ------------------------------------------------------------------ round trips (JSON-value level) *)
+Ltac eval_enc :=
+  repeat match goal with
+  | |- context [fstr ?E ?nm] =>
+      let r := eval cbv -[parse_int64 print_int] in (fstr E nm) in change (fstr E nm) with r
+  | |- context [fint ?E ?nm] =>
+      let r := eval cbv -[parse_int64 print_int] in (fint E nm) in change (fint E nm) with r
+  | |- context [fptr ?E ?nm] =>
+      let r := eval cbv -[parse_int64 print_int] in (fptr E nm) in change (fptr E nm) with r
+  | |- context [typed_okb ?sc ?E] =>
+      let r := eval cbv -[parse_int64 print_int] in (typed_okb sc E) in change (typed_okb sc E) with r
+  end.
+
+Lemma valid_nat_b : forall n, valid_nat n -> valid_natb n = true.
+Proof. intros n H. apply valid_natb_iff. assumption. Qed.
+Lemma beq_nil_false : forall s, s <> [] -> beq s [] = false.
+Proof. intros s H. apply beq_neq. assumption. Qed.
+
+Theorem roundtrip_proxy_poll : forall sid ty nat n pat,
+  sid <> [] -> valid_nat nat -> int64 n ->
+  decode_proxy_poll (encode_proxy_poll sid ty nat n pat) =
+  Ok {| pq_sid := sid; pq_type := norm_type ty; pq_nat := nat_default nat; pq_clients := n;
+        pq_pattern := pat; pq_aware := true |}.
+Proof.
+  intros sid ty nat n pat Hs Hn Hi.
+  rewrite decode_proxy_poll_eq. unfold poll_req_acceptb, poll_req_of. eval_enc.
+  rewrite (parse_print_int n Hi), (beq_nil_false sid Hs), (valid_nat_b nat Hn). reflexivity.
+Qed.
+
+Theorem roundtrip_proxy_poll_legacy : forall sid ty nat n,
+  sid <> [] -> valid_nat nat -> int64 n ->
+  decode_proxy_poll_legacy (encode_proxy_poll_legacy sid ty nat n) = Ok (sid, norm_type ty, nat_default nat, n).
+Proof.
+  intros sid ty nat n Hs Hn Hi. unfold decode_proxy_poll_legacy, encode_proxy_poll_legacy.
+  rewrite (roundtrip_proxy_poll sid ty nat n [] Hs Hn Hi). reflexivity.
+Qed.
+
+Theorem roundtrip_poll_response : forall offer success nat relay reason,
+  decode_poll_response (encode_poll_response offer success nat relay reason) =
+  if success then (if beq offer [] then Err else Ok (offer, nat_default nat, relay))
+  else if beq reason NO_MATCH then Ok ([], NAT_UNKNOWN, []) else Err.
+Proof.
+  intros offer success nat relay reason. rewrite decode_poll_response_eq.
+  destruct success; unfold encode_poll_response; eval_enc.
+  - destruct (beq offer []); reflexivity.
+  - destruct (beq reason NO_MATCH) eqn:E.
+    + apply beq_eq in E. subst reason. reflexivity.
+    + destruct (beq reason []); [reflexivity|]. destruct (beq reason CLIENT_MATCH); reflexivity.
+Qed.
+
+Theorem roundtrip_answer_request : forall answer sid,
+  answer <> [] -> sid <> [] ->
+  decode_answer_request (encode_answer_request answer sid) = Ok (answer, sid).
+Proof.
+  intros answer sid Ha Hs. rewrite decode_answer_request_eq. unfold answer_req_acceptb. eval_enc.
+  rewrite (beq_nil_false _ Ha), (beq_nil_false _ Hs). reflexivity.
+Qed.
+
+Theorem roundtrip_answer_response : forall b, decode_answer_response (encode_answer_response b) = Ok b.
+Proof. intros []; reflexivity. Qed.
+
+Lemma fp_default_idem : forall fp, fp_default (fp_default fp) = fp_default fp.
+Proof.
+  intros fp. unfold fp_default. destruct (beq fp []) eqn:E; [reflexivity|].
+  rewrite E. reflexivity.
+Qed.
+
+Theorem roundtrip_client_poll_body : forall offer nat fp,
+  offer <> [] -> valid_nat nat -> fingerprint_valid (fp_default fp) ->
+  decode_client_poll_body (encode_client_poll offer nat fp) = Ok (offer, nat_default nat, fp_default fp).
+Proof.
+  intros offer nat fp Ho Hn Hf. rewrite decode_client_poll_body_eq. unfold client_req_acceptb, encode_client_poll.
+  fold (fp_default fp). pose proof (fp_default_idem fp) as I. apply fingerprint_ok_iff in Hf.
+  remember (fp_default fp) as fp'. eval_enc.
+  rewrite I, Hf, (beq_nil_false _ Ho), (valid_nat_b _ Hn). reflexivity.
+Qed.
+
+Theorem roundtrip_client_response : forall answer error,
+  answer <> [] \/ error <> [] ->
+  decode_client_response (encode_client_response answer error) = Ok (answer, error).
+Proof.
+  intros answer error H. rewrite decode_client_response_eq. unfold encode_client_response, omitempty.
+  destruct (beq answer []) eqn:Ea; destruct (beq error []) eqn:Ee.
+  - apply beq_eq in Ea, Ee. subst. destruct H as [H|H]; contradiction H; reflexivity.
+  - apply beq_eq in Ea. subst answer. unfold jstr_field. eval_enc. rewrite Ee. reflexivity.
+  - apply beq_eq in Ee. subst error. unfold jstr_field. eval_enc. rewrite Ea. reflexivity.
+  - unfold jstr_field. eval_enc. rewrite Ea, Ee. reflexivity.
+Qed.
+
+(* byte level: encoding/json's printer and parser as Section variables *)
+Section Library.
+  Variable parse : bytes -> option json.
+  Variable print : json -> bytes.
+  Variable printable : json -> Prop.     (* e.g. every string is valid UTF-8 *)
+  Hypothesis parse_print : forall v, printable v -> parse (print v) = Some v.
+
+  Theorem roundtrip_bytes : forall {A} (d : json -> result A) v r,
+    printable v -> d v = r -> opt_decode d (parse (print v)) = r.
+  Proof. intros A d v r P H. rewrite (parse_print v P). exact H. Qed.
+
+  Theorem roundtrip_client_poll_bytes : forall offer nat fp,
+    printable (encode_client_poll offer nat fp) ->
+    offer <> [] -> valid_nat nat -> fingerprint_valid (fp_default fp) ->
+    decode_client_poll parse (encode_client_poll_bytes print offer nat fp) = Ok (offer, nat_default nat, fp_default fp).
+  Proof.
+    intros offer nat fp P Ho Hn Hf. unfold decode_client_poll, encode_client_poll_bytes.
+    change (split_nl (CLIENT_VERSION ++ [10] ++ print (encode_client_poll offer nat fp)))
+      with (Some (CLIENT_VERSION, print (encode_client_poll offer nat fp))).
+    cbv beta iota. rewrite beq_refl. apply roundtrip_bytes; [assumption|]. apply roundtrip_client_poll_body; assumption.
+  Qed.
+End Library.
+
+(* ------------------------------------------------------------------ documented defaults *)
+Definition absent (nm : string) (v : json) : Prop :=
+  forall key x, In (key, x) (entries v) -> fold_name key <> fold_name (bs nm).
+
+Lemma absent_hits : forall nm v, absent nm v -> hits (bs nm) (entries v) = [].
+Proof.
+  intros nm v H. unfold hits, absent in *. induction (entries v) as [|[key x] es IH]; [reflexivity|].
+  cbn [filter fst]. destruct (names_key (bs nm) key) eqn:E.
+  - unfold names_key in E. apply beq_eq in E. exfalso. apply (H key x); [left; reflexivity | exact E].
+  - apply IH. intros k y Hin. apply (H k y). right. assumption.
+Qed.
+
+Theorem defaults : 
+  (forall v r, decode_proxy_poll v = Ok r -> absent "NAT" v -> pq_nat r = NAT_UNKNOWN) /\
+  (forall v r, decode_proxy_poll v = Ok r -> known_type (fstr v "Type") = false -> pq_type r = PROXY_UNKNOWN) /\
+  (forall v r, decode_proxy_poll v = Ok r -> known_type (fstr v "Type") = true -> pq_type r = fstr v "Type") /\
+  (forall v r, decode_proxy_poll v = Ok r -> absent "AcceptedRelayPattern" v -> pq_aware r = false /\ pq_pattern r = []) /\
+  (forall v r p, decode_proxy_poll v = Ok r -> fptr v "AcceptedRelayPattern" = Some p -> pq_aware r = true /\ pq_pattern r = p) /\
+  (forall v o n u, decode_poll_response v = Ok (o, n, u) -> absent "NAT" v -> n = NAT_UNKNOWN) /\
+  (forall v o n f, decode_client_poll_body v = Ok (o, n, f) -> absent "nat" v -> n = NAT_UNKNOWN) /\
+  (forall v o n f, decode_client_poll_body v = Ok (o, n, f) -> absent "fingerprint" v -> f = DEFAULT_FINGERPRINT).
+Proof.
+  repeat split.
+  - intros v r H A. apply accept_proxy_poll in H. subst r. cbn [pq_nat poll_req_of]. unfold fstr. rewrite (absent_hits _ _ A). reflexivity.
+  - intros v r H K. apply accept_proxy_poll in H. subst r. cbn [pq_type poll_req_of]. unfold norm_type. rewrite K. reflexivity.
+  - intros v r H K. apply accept_proxy_poll in H. subst r. cbn [pq_type poll_req_of]. unfold norm_type. rewrite K. reflexivity.
+  - apply accept_proxy_poll in H. subst r. cbn [pq_aware poll_req_of]. unfold fptr. rewrite (absent_hits _ _ H0). reflexivity.
+  - apply accept_proxy_poll in H. subst r. cbn [pq_pattern poll_req_of]. unfold fptr. rewrite (absent_hits _ _ H0). reflexivity.
+  - apply accept_proxy_poll in H. subst r. cbn [pq_aware poll_req_of]. rewrite H0. reflexivity.
+  - apply accept_proxy_poll in H. subst r. cbn [pq_pattern poll_req_of]. rewrite H0. reflexivity.
+  - intros v o n u H A. apply accept_poll_response in H. injection H as _ -> _. unfold fstr. rewrite (absent_hits _ _ A). reflexivity.
+  - intros v o n f H A. apply accept_client_poll_body in H. injection H as _ -> _. unfold fstr. rewrite (absent_hits _ _ A). reflexivity.
+  - intros v o n f H A. apply accept_client_poll_body in H. injection H as _ _ ->. unfold fstr. rewrite (absent_hits _ _ A). reflexivity.
+Qed.
